@@ -1645,11 +1645,10 @@ class Fxp():
 
     # reset
     def reset(self):
-        #status (overwrite)
-        self.status = {
-            'overflow': False,
-            'underflow': False,
-            'inaccuracy': False}
+        #status (clear flags, keep the rest of the record)
+        self.status['overflow'] = False
+        self.status['underflow'] = False
+        self.status['inaccuracy'] = False
 
     def _convert_op_input_value(self, x, op_input_size=None):
         if not isinstance(x, Fxp):
